@@ -194,6 +194,7 @@ def run_translators():
             try:
                 done[name] = mod.generate()
                 TRANSLATOR_FAILURES.pop(name, None)
+                TRANSLATOR_FALLBACK.pop(name, None)
             except BuildError:
                 raise
             except Exception as e:
@@ -201,6 +202,20 @@ def run_translators():
                 # forms, so that nothing builds against a stale copy) and the failure is remembered; the property files that
                 # depend on the removed module then fail to build and name the translator, the others are not affected.
                 msg = "translator %s no longer recognises the source: %s" % (name, str(e)[:600])
+                # Source-text translators (regular expressions over C++) stop at a harmless rewrite of the code they read. Their tables then
+                # come from translators/baseline/ (what the translator produced for the tree this framework was last brought up to date with)
+                # and are tied to the code the second way: the correspondence runs of the checks compare the model instantiated with these
+                # tables against the implementation. A table that no longer fits the code shows there, with an input.
+                base = [os.path.join(VERIF, "translators", "baseline", out + ".v") for out in TRANSLATOR_OUTPUTS.get(name, [])]
+                if name in BASELINE_FALLBACK and base and all(os.path.exists(b) for b in base):
+                    for b in base:
+                        q = os.path.join(COQ, "Gen", os.path.basename(b))
+                        txt = open(b).read()
+                        if not os.path.exists(q) or open(q).read() != txt:
+                            open(q, "w").write(txt)
+                    TRANSLATOR_FALLBACK[name] = msg
+                    TRANSLATOR_FAILURES.pop(name, None)
+                    continue
                 TRANSLATOR_FAILURES[name] = msg
                 for out in TRANSLATOR_OUTPUTS.get(name, []):
                     if name == "gen_syntax" and getattr(e, "kept", None) and out in e.kept:
@@ -216,6 +231,8 @@ def run_translators():
 TRANSLATOR_OUTPUTS = {"consts": ["Consts"], "diag": ["DiagCodes"], "gen_syntax": ["Registry", "Grammar"], "overloads": ["Overloads"],
                       "registry_full": ["RegistryFull"], "resultmap": ["ResultMap"], "statics": ["Statics"]}
 TRANSLATOR_FAILURES = {}
+TRANSLATOR_FALLBACK = {}
+BASELINE_FALLBACK = {"consts", "diag", "resultmap"}
 
 
 def translator_note():
@@ -544,6 +561,11 @@ class Run:
             if len(lines) >= 10:
                 break
         self.cov["known_findings_hit"] = dict(self.known_hits)
+        if TRANSLATOR_FALLBACK:
+            self.cov["translator_fallbacks"] = dict(TRANSLATOR_FALLBACK)
+            for k in sorted(TRANSLATOR_FALLBACK):
+                print("NOTE: property=%s %s - its tables are the baseline of translators/baseline/, tied to this tree by the correspondence runs only"
+                      % (self.pid, TRANSLATOR_FALLBACK[k][:300]))
         ev = {"property_id": self.pid, "tier": self.tier if self.tier in ("quick", "thorough") else "quick",
               "seed": self.seed, "level": self.level, "coverage": self.cov,
               "assumptions": self.assumptions, "wall_s": round(time.time() - self.t0, 2),
